@@ -24,6 +24,12 @@ CHECKS = {
  "C20": dict(engine="E3 query sweeper + range monitor", technique="bounded exhaustive enumeration of workspace variants x offsets x all query kinds; invariant monitor on every reported range",
    text="Every range in every answer of the C10 sweep (diagnostics, hover, goto focus/full, references, highlights, rename edits, prepare-rename, completion source ranges, semantic highlights) is checked: file belongs to the workspace, within bounds, on character boundaries, focus inside full, name-like ranges start and end on token boundaries.",
    note="'Covers a whole token' is checked as: starts at a token start and ends at a token end (go-to-definition reports a whole field or spread pattern as focus).", ref="5/C20"),
+ "C11": dict(engine="history explorer (stateless, state = history)", technique="bounded exhaustive exploration of all change/query histories up to depth n on the real AnalysisHost, differential oracle against two fresh instances queried in different orders; hash-seed layer via getrandom shim",
+   text="All histories of <=n (change, query-menu) steps over 28 changes (12 versions of a, 8 of b, add/remove file with new roots, add/remove dependency edge, root reordering, same-again) x 6 menus are replayed on a new host each; the final full sweep of every query at every token boundary must equal a fresh host's and a second fresh host's queried in reverse order.",
+   note="Depth: quick 2, thorough 3 (menus restricted at depth 3; reported as cap). Hidden salsa state is not hashable, so the state is the history. Hash seeds are a finite list, reported as such.", ref="5/C11"),
+ "C12": dict(engine="schedule explorer E4 (in-process, salsa checkpoints)", technique="exhaustive schedule exploration at salsa's cancellation checkpoints: the writer is started while the reader is parked at its i-th checkpoint, for every i (one reader) and for strided pairs x both release orders (two readers), on the real AnalysisHost/Analysis",
+   text="Cancellation is observed only at salsa query entry; hook H2 turns each WillCheckCancellation into a scheduling point, hook H3 lets the controller see the flag. Every schedule runs on the real code; oracle: answer = pre-change answer or Cancelled, never a panic or a mixture; a parked reader must be cancelled at the checkpoint it is parked at; the writer returns; later snapshots equal a fresh analysis.",
+   note="Trusted base: salsa, parking_lot between two checkpoints. Two-reader pairs are strided (cap reported).", ref="5/C12"),
  "C13": dict(engine="stateright BFS + in-process router", technique="explicit-state model checking (stateright BFS) with the real Vfs/convert code as transition function, reference LSP client as model; plus exhaustive two-change notifications through the real Server router",
    text="All client documents up to L symbols are states; every valid (start,end,replacement) edit and full-text change is a transition executed on the real Vfs::change_file_content via convert::from_range and compared with the reference client; the line-map freshness invariant checked in every state justifies deduplicating on client text. The per-change loop of on_did_change is covered by all ordered pairs of edits in one notification.",
    note="Bounds in evidence. Trusted: the reference client model (LSP 3.17 positions); the syntax-tree dump as observation of the server text.", ref="5/C13"),
